@@ -16,6 +16,9 @@ observed outcome with it and returns a list of (signature, text) complaints.  Af
 
 Closing a socket that is already closed (`closed_again`) is a no-op on the table: whatever the API call does
 (return or raise nfc.llcp.Error), no address and no name changes hands; `view()` gives a comparable snapshot.
+Operations of different threads on different sockets of one controller that overlap in time are explained by
+*some* sequential order (`clone()` + the same expectations); implicit binds (`expect_implicit`) follow the rule of the
+anonymous bind.
 Name lookups are a pure function of the table (`lookup_allowed`): the answer to one request never depends on
 other requests that travel with it in the same SNL PDU (`lookup_batch`).
 """
@@ -204,6 +207,15 @@ class AddrModel(object):
             return Expect("name", ok=free)
         return Expect("name-exhausted", errs=NO_ADDRESS_CODES)
 
+    def expect_implicit(self, sid):
+        """listen / connect / sendto on a socket without an address bind it like an anonymous bind does"""
+        if self.sock[sid].addr is not None:
+            return Expect("already-bound", ok=[self.sock[sid].addr])
+        free = self.free(DYNAMIC)
+        if free:
+            return Expect("implicit", ok=free)
+        return Expect("implicit-exhausted", errs=[errno.EAGAIN])
+
     def judge(self, op, exp, outcome):
         """outcome: ("ok", addr) | ("err", errno) -> list of (signature, text)"""
         if not exp.judged:
@@ -289,6 +301,24 @@ class AddrModel(object):
         """comparable snapshot of the table: (address -> holders, name -> address)"""
         return (tuple(sorted((a, tuple(sorted(map(str, h)))) for a, h in self.at.items() if h)),
                 tuple(sorted((n, self.sock[x].addr) for n, x in self.names.items())))
+
+    def clone(self):
+        """independent copy of the table (used to try the sequential orders that could explain the outcomes of
+        operations that ran concurrently: the table after a set of operations does not depend on their order)"""
+        c = AddrModel()
+        for sid, s in self.sock.items():
+            t = Sock(sid, s.kind)
+            t.__dict__.update(s.__dict__)
+            c.sock[sid] = t
+        c.at = {a: set(h) for a, h in self.at.items()}
+        c.names = dict(self.names)
+        c.ghost = dict(self.ghost)
+        c.tainted_addr = set(self.tainted_addr)
+        c.tainted_name = set(self.tainted_name)
+        c.ever_used = set(self.ever_used)
+        if hasattr(self, "reused"):
+            c.reused = self.reused
+        return c
 
     def lookup_batch(self, names):
         """allowed answers for several requests carried in one SNL PDU: each one on its own"""
